@@ -96,20 +96,24 @@ def parseDump? (d : String) : Option (List Node) :=
   | some (ns, []) => some ns
   | _ => none
 
-def runTree (dump : String) : String :=
+def runTree (scfg : SerCfg) (lcfg : LexCfg) (tcfg : TbCfg) (dump : String) : String :=
     match parseDump? dump with
     | some doc =>
-      let evs := serDoc SerCfg.current doc
-      let ser := dhex (render SerCfg.current evs)
-      match run TbCfg.current State.init (lexAll SerCfg.current LexCfg.current evs) with
+      let evs := serDoc scfg doc
+      let ser := dhex (render scfg evs)
+      match run tcfg State.init (lexAll scfg lcfg evs) with
       | .ok s => "ser=" ++ ser ++ ";" ++ dumpState s
       | .error e => "ser=" ++ ser ++ ";PANIC " ++ e
     | none => "bad-case"
 
+/-- `tree` runs the `.current` configuration; `tree+fixed` the model with every proposed fix (no
+harness counterpart: used to pre-validate patches against a patched copy of the crates) -/
 def runCase (fields : List String) : String :=
   match fields with
-  | ["tree", dump] => runTree dump
-  | ["tree", dump, _flag] => runTree dump
+  | ["tree", dump] => runTree SerCfg.current LexCfg.current TbCfg.current dump
+  | ["tree", dump, _flag] => runTree SerCfg.current LexCfg.current TbCfg.current dump
+  | ["tree+fixed", dump] => runTree SerCfg.fixed LexCfg.fixed TbCfg.fixed dump
+  | ["tree+fixed", dump, _flag] => runTree SerCfg.fixed LexCfg.fixed TbCfg.fixed dump
   | ["src", _] => "no-model"
   | _ => "bad-case"
 
